@@ -1,6 +1,90 @@
 ------------------------------- MODULE HalDft -------------------------------
-(* placeholder, replaced below by the DFT-domain layer *)
-EXTENDS Integers, Sequences
-IsDftOp(op) == FALSE
-DftPost(op, N, p, rs, ins) == <<>>
+(* DFT-domain layer of the hardware abstraction (C07).                                     *)
+(* Refinement mapping: a prepared / DFT-domain object *is* the coefficient-domain value it  *)
+(* represents (DFT |-> IDFT); the specification therefore states every operation as exact   *)
+(* integer arithmetic in Z[X,Y]/(X^N+1), Y = one limb position:                             *)
+(*   - forward then inverse transform is the identity on the selected limbs                 *)
+(*     (selection offset, offset+step, ...; zero fill where the selection runs past the end),*)
+(*   - DFT-domain add/sub/copy/zero/add_scaled act limb-wise with the size rule,            *)
+(*   - svp  = limb-wise negacyclic product by a scalar polynomial,                          *)
+(*   - vmp  = sum of row products over the flattened (limb, column) index, result limbs     *)
+(*            beyond the matrix (after limb_offset) are ZERO,                               *)
+(*   - cnv  = bivariate convolution truncated to the requested limbs, with the requested    *)
+(*            limb offset; pairwise form (a_i+a_j)(b_i+b_j); constant form; top-limb mask.  *)
+(* No rounding error is visible: equality is bit for bit.                                   *)
+EXTENDS Integers, Sequences, Pow2, Poly, Limbs
+
+DftOps == {"dft_apply", "dft_copy", "dft_zero", "dft_add_into", "dft_sub", "dft_add_assign", "dft_sub_assign",
+           "dft_sub_negate_assign", "dft_add_scaled_assign", "idft_apply", "idft_apply_tmpa", "idft_apply_consume",
+           "svp_apply_dft", "svp_apply_dft_to_dft", "svp_apply_dft_to_dft_assign",
+           "vmp_apply_dft", "vmp_apply_dft_to_dft",
+           "cnv_apply_dft", "cnv_apply_dft_self", "cnv_pairwise_apply_dft", "cnv_by_const_apply"}
+IsDftOp(op) == op \in DftOps
+
+Limb(a, l, N) == IF l >= 0 /\ l < Len(a) THEN a[l + 1] ELSE PZero(N)      \* 0-based limb, zero outside
+
+\* limb selection of dft_apply / dft_copy
+Select(a, step, off, rs, N) == [j \in 1..rs |-> Limb(a, off + (j - 1) * step, N)]
+
+\* masking of the least significant active limb: bitwise AND with -(2^t)  =  floor to a multiple of 2^t
+MaskPoly(x, t) == [i \in 1..Len(x) |-> (x[i] \div Pow2(t)) * Pow2(t)]
+MaskLast(a, t) == [j \in 1..Len(a) |-> IF j = Len(a) THEN MaskPoly(a[j], t) ELSE a[j]]
+
+RECURSIVE SumPolys(_, _, _)
+SumPolys(F(_), lo, hi) == IF lo > hi THEN <<>> ELSE IF lo = hi THEN F(lo) ELSE PAdd(F(lo), SumPolys(F, lo + 1, hi))
+
+\* bivariate convolution: limb l (0-based) of a*b is the sum over p+q = l of the negacyclic products
+ConvLimb(a, b, l, N) ==
+  LET lo == Max(0, l - (Len(b) - 1))
+      hi == Min(Len(a) - 1, l)
+  IN IF lo > hi THEN PZero(N) ELSE SumPolys(LAMBDA pp : NegacyclicMul(a[pp + 1], b[l - pp + 1]), lo, hi)
+Conv(a, b, off, rs, N) == [j \in 1..rs |-> ConvLimb(a, b, (j - 1) + off, N)]
+
+\* convolution by a constant (limbs are scalars)
+ConvConstLimb(a, c, l, N) ==
+  LET lo == Max(0, l - (Len(c) - 1))
+      hi == Min(Len(a) - 1, l)
+  IN IF lo > hi THEN PZero(N) ELSE SumPolys(LAMBDA pp : PScale(a[pp + 1], c[l - pp + 1]), lo, hi)
+
+\* vector-matrix product over the flattened index spaces
+\*   input  r = limb*cin + ci        (r < min(rows*cin, as*cin))
+\*   output c = limb*cout + co       (matrix limb = result limb + limb_offset must exist: < ms)
+VmpLimb(am, mat, pp, co, l, N) ==
+  LET cin == pp.cin
+      cout == pp.cout
+      as == Len(am[1])
+      rmax == Min(pp.rows * cin, as * cin)
+      c == (l + pp.off) * cout + co         \* flattened matrix column (limb_offset counts limbs)
+      ml == c \div cout                     \* matrix limb
+      mc == c % cout                        \* matrix output column
+  IN IF c >= pp.ms * cout \/ rmax = 0 THEN PZero(N)
+     ELSE SumPolys(LAMBDA r : NegacyclicMul(am[(r % cin) + 1][(r \div cin) + 1],
+                                            mat[(r \div cin) + 1][(r % cin) + 1][mc + 1][ml + 1]), 0, rmax - 1)
+
+DftPost(op, N, p, rs, ins) ==
+  CASE op = "dft_apply" -> Select(ins.a, p.step, p.off, rs, N)
+    [] op = "dft_copy" -> Select(ins.a, p.step, p.off, rs, N)
+    [] op = "dft_zero" -> ZeroCol(N, rs)
+    [] op \in {"idft_apply", "idft_apply_tmpa", "idft_apply_consume"} -> MapCol(LAMBDA x : x, ins.a, rs, N)
+    [] op = "dft_add_into" -> Comb2(PAdd, ins.a, ins.b, rs, N)
+    [] op = "dft_sub" -> Comb2(PSub, ins.a, ins.b, rs, N)
+    [] op = "dft_add_assign" -> Acc(PAdd, ins.r, ins.a)
+    [] op = "dft_sub_assign" -> Acc(PSub, ins.r, ins.a)
+    [] op = "dft_sub_negate_assign" -> [j \in 1..rs |-> IF j <= Len(ins.a) THEN PSub(ins.a[j], ins.r[j]) ELSE PNeg(ins.r[j])]
+    \* res += a * Y^(-scale): limb j of res receives limb j + scale of a
+    [] op = "dft_add_scaled_assign" -> [j \in 1..rs |-> PAdd(ins.r[j], Limb(ins.a, (j - 1) + p.scale, N))]
+    [] op \in {"svp_apply_dft", "svp_apply_dft_to_dft"} ->
+         [j \in 1..rs |-> IF j <= Len(ins.b) THEN NegacyclicMul(ins.s, ins.b[j]) ELSE PZero(N)]
+    [] op = "svp_apply_dft_to_dft_assign" -> [j \in 1..rs |-> NegacyclicMul(ins.s, ins.r[j])]
+    [] op \in {"vmp_apply_dft", "vmp_apply_dft_to_dft"} -> [j \in 1..rs |-> VmpLimb(ins.am, ins.m, p, p.rcol, j - 1, N)]
+    [] op = "cnv_apply_dft" -> Conv(MaskLast(ins.a, p.maskt), MaskLast(ins.b, p.maskt), p.off, rs, N)
+    [] op = "cnv_apply_dft_self" -> Conv(MaskLast(ins.a, p.maskt), MaskLast(ins.a, p.maskt), p.off, rs, N)
+    [] op = "cnv_pairwise_apply_dft" ->
+         LET ai == MaskLast(ins.am[p.ci + 1], p.maskt)
+             aj == MaskLast(ins.am[p.cj + 1], p.maskt)
+             bi == MaskLast(ins.bm[p.ci + 1], p.maskt)
+             bj == MaskLast(ins.bm[p.cj + 1], p.maskt)
+         IN IF p.ci = p.cj THEN Conv(ai, bi, p.off, rs, N)
+            ELSE Conv([j \in 1..Len(ai) |-> PAdd(ai[j], aj[j])], [j \in 1..Len(bi) |-> PAdd(bi[j], bj[j])], p.off, rs, N)
+    [] op = "cnv_by_const_apply" -> [j \in 1..rs |-> ConvConstLimb(ins.a, ins.cst, (j - 1) + p.off, N)]
 =============================================================================
